@@ -219,4 +219,7 @@ def mcwf(args: tuple[int, MCWFContext]) -> NDArray[np.float64]:
     if sim_params.get_state:
         ctx.output_state = psi
 
+    if not sim_params.sample_timesteps:
+        # only the value at the final time is reported
+        return results[:, -1:]
     return results
